@@ -180,6 +180,7 @@ TResults ==
   /\ Chk("tuning_times_are_the_end_times_of_the_adaptation_epochs", Ev.tuning_times = TuneTimes(1))
   /\ Chk("stored_results_unchanged_by_reading_and_summarising", Ev.reread_ok)
   /\ Chk("results_object_obtained_earlier_shows_what_was_sampled_since", Ev.retained_ok)
+  /\ Chk("results_written_to_disk_and_read_back_show_the_same_chains", Ev.pkl # "different")
   /\ Chk("keys_distinct_across_chains_and_calls",
          Cardinality(SeqToSet(Ev.allkeys)) = Len(Ev.allkeys))
   /\ Chk("no_call_key_is_derived_from_another_calls_key", Ev.keys_underived)
